@@ -5,7 +5,6 @@
 pub uninterp spec fn lineage(id: int) -> bool;      // reached from the root by A1 steps only
 pub uninterp spec fn witnessed(id: int) -> bool;    // procfs path check saw it under the root (A3)
 pub uninterp spec fn is_procfs(id: int) -> bool;    // f_type == PROC_SUPER_MAGIC was checked
-pub uninterp spec fn mnt_of(id: int) -> Option<u64>; // statx mount id of the object
 pub uninterp spec fn kflags(id: int) -> i32;        // O_* bits given to the kernel at open time
 pub uninterp spec fn kresolve(id: int) -> int;      // RESOLVE_* bits (openat2)
 pub uninterp spec fn is_cwd(id: int) -> bool;       // AT_FDCWD pseudo-descriptor
@@ -26,6 +25,7 @@ impl<'a> BorrowedFd<'a> {
     pub fn try_clone_to_owned(&self) -> (r: Result<OwnedFd, IOError>)
         ensures r matches Ok(fd) ==> same_description(fd.id(), self.id@) && lineage(fd.id()) == lineage(self.id@)
             && is_procfs(fd.id()) == is_procfs(self.id@) && mnt_checked(fd.id()) == mnt_checked(self.id@)
+            && mnt_of(fd.id()) == mnt_of(self.id@)
     { unimplemented!() }
 }
 pub uninterp spec fn same_description(a: int, b: int) -> bool;
@@ -46,12 +46,15 @@ impl<T: AsFd> AsFd for &T {
     open spec fn fd_id(&self) -> int { (**self).fd_id() }
     fn as_fd(&self) -> (r: BorrowedFd<'_>) { (**self).as_fd() }
 }
-pub trait AsRawFd { fn as_raw_fd(&self) -> (r: i32); }
-impl AsRawFd for BorrowedFd<'_> {
-    #[verifier::external_body]
-    fn as_raw_fd(&self) -> (r: i32) ensures r as int == raw_of(self.id@) { unimplemented!() }
+pub trait AsRawFd {
+    spec fn raw_spec(&self) -> int;
+    fn as_raw_fd(&self) -> (r: i32) ensures r as int == self.raw_spec();
 }
-
+impl AsRawFd for BorrowedFd<'_> {
+    open spec fn raw_spec(&self) -> int { raw_of(self.id@) }
+    #[verifier::external_body]
+    fn as_raw_fd(&self) -> (r: i32) { unimplemented!() }
+}
 pub struct File { pub fd: OwnedFd }
 impl File { pub open spec fn id(&self) -> int { self.fd.id() } }
 impl AsFd for File {
@@ -83,7 +86,11 @@ pub uninterp spec fn requested_oflags() -> i32;
 pub uninterp spec fn requested_rflags() -> u32;
 pub uninterp spec fn link_body_of(fd: int, body: Seq<u8>) -> bool; // readlinkat(fd, "") returned body
 pub uninterp spec fn reopened_from(fd: int, orig: int) -> bool; // fd = open(/proc/thread-self/fd/<orig>) (A6)
-pub uninterp spec fn follow_site_ok(dir: int, name: Seq<u8>) -> bool; // the one legal follow site: procfs dir, mount-checked, link dentry checked
+/// the one legal site of a followed open: `d` is a verified procfs directory and the dentry `n`
+/// in it is on the same mount (no over-mount on the magic-link itself)
+pub open spec fn follow_site_ok(d: int, n: Seq<u8>) -> bool {
+    is_procfs(d) && (kernel_reports_mnt_ids() ==> mnt_at(d, n) == mnt_of(d))
+}
 pub uninterp spec fn follow_checked(dir: int, link: int) -> bool;    // may_follow_link(dir, link) allowed following this symlink
 /// the link was opened as an entry of a directory against which the protected_symlinks rule was evaluated
 pub open spec fn follow_checked_in_parent(link: int) -> bool { exists|d: int, n: Seq<u8>| (#[trigger] opened_from(link, d, n)) && follow_checked(d, link) }
@@ -97,3 +104,17 @@ pub proof fn axiom_resolution_result(h: int, root: int, path: Seq<u8>, nofollow:
     requires lineage(h),          // [C01+C02.resolution_result.only_in_root_handles_are_results]
     ensures resolved_from(h, root, path, nofollow)
 { admit(); }
+// ---- procfs vocabulary (A5: statx mount ids identify mounts)
+pub uninterp spec fn handle_mnt() -> Option<u64>;                    // rigid: mount id recorded in the ProcfsHandle of this operation
+/// rigid: the running kernel reports mount ids through statx (Linux 5.8+); C06 is stated for such kernels
+pub uninterp spec fn kernel_reports_mnt_ids() -> bool;
+pub open spec fn pinned(id: int) -> bool { kernel_reports_mnt_ids() ==> mnt_of(id) == handle_mnt() }
+pub mod mntax {
+    use super::*;
+    pub uninterp spec fn mnt_of(id: int) -> Option<u64>;                  // statx mount id of the object (None = unreported)
+    pub uninterp spec fn mnt_at(dir: int, name: Seq<u8>) -> Option<u64>;  // mount id the kernel reports for (dir, name)
+    pub broadcast axiom fn axiom_mnt_at_empty(d: int, name: Seq<u8>)
+        ensures name.len() == 0 ==> #[trigger] mnt_at(d, name) == mnt_of(d);
+}
+pub use mntax::{mnt_of, mnt_at};
+//@broadcast mntax::axiom_mnt_at_empty
